@@ -173,6 +173,15 @@ func (c *Ctx) Fn(rel, name string) *ssa.Function {
 		if !ok {
 			return nil
 		}
+		if named, ok := t.Type().(*types.Named); ok && named.TypeParams().Len() > 0 {
+			// generic type: use the generic origin's body
+			for i := 0; i < named.NumMethods(); i++ {
+				if m := named.Method(i); m.Name() == mn {
+					return c.mark(c.Prog.FuncValue(m))
+				}
+			}
+			return nil
+		}
 		for _, ty := range []types.Type{t.Type(), types.NewPointer(t.Type())} {
 			ms := c.Prog.MethodSets.MethodSet(ty)
 			for i := 0; i < ms.Len(); i++ {
